@@ -159,6 +159,19 @@ CHECKS = {
         "Finite grids; backsweep stays disabled.",
         "DESIGN.md section 4 / C05",
     ),
+    "C07": (
+        "exploration",
+        "E1",
+        "grid enumeration of oscillation / PFID / artifact / shape parameters; Faddeeva-function reference for the "
+        "IRF-convolved (anti-)causal oscillation with one proportionality constant per dataset; decay-model effective IRF "
+        "position per index; closed-form derivatives and shape limits",
+        "Every grid point is compared with the mathematical definition evaluated independently: Re/Im of exp(-gt-iwt) by "
+        "label, convolution with the IRF through scipy.special.wofz incl. the truncation seams and far before the pulse, "
+        "the per-index IRF position of the decay model for shifted/dispersed IRFs, Gaussian derivatives, shape formulae "
+        "and skewness -> 0.",
+        "omega*sigma limited to the Faddeeva reference's range; |rate|*width >= 5 recorded as known finding.",
+        "DESIGN.md section 4 / C07",
+    ),
 }
 
 PENDING_REASON = "check under construction in this round - not claimed until its check runs clean on the unchanged tree"
@@ -199,7 +212,7 @@ def main():
             "add_only": True,
         },
         "engines": [
-            {"name": "E1", "path": "vf/core.py", "serves_properties": ["C01", "C02", "C03", "C04", "C05", "C08", "C09", "C11", "C13"], "kind_free_text": "bounded exhaustive input-space enumeration with reference oracles, 16 workers"},
+            {"name": "E1", "path": "vf/core.py", "serves_properties": ["C01", "C02", "C03", "C04", "C05", "C07", "C08", "C09", "C11", "C13"], "kind_free_text": "bounded exhaustive input-space enumeration with reference oracles, 16 workers"},
             {"name": "E2", "path": "vf/explore.py", "serves_properties": ["C10", "C12", "C19"], "kind_free_text": "explicit-state BFS over event histories replayed on fresh real objects, full-state digests"},
             {"name": "E3", "path": "vf/checks/c15.py", "serves_properties": ["C15"], "kind_free_text": "deviation-bounded fault enumerator (all single / pairs of deviations from the fault-free environment), forked watchdog"},
             {"name": "E5", "path": "vf/prange.py", "serves_properties": ["C10"], "kind_free_text": "partial-order (conflict relation) exploration of numba prange kernels on py_func with recording array proxies"},
